@@ -747,6 +747,63 @@ pub fn c11(ctx: &Ctx) -> Report {
     });
     rep.evaluations += rates.len() as u64 * (nf + 65) * 5;
     rep.subruns.push(json!({"engine": "E2-sweep", "what": "frequency x sample-rate grid, one tick from 5 start phases", "rates": rates, "frequencies_per_rate": nf + 65}));
+    // every integer sample rate in [100, 192000]: one tick at five frequencies, from two start phases
+    {
+        let stride: u64 = if ctx.tier.is_thorough() { 1 } else { 5 };
+        let n = (192_000 - 100) / stride + 1;
+        par_ranges(ctx, &mut rep, n, 512, |_, lo, hi, lc| {
+            let mut fnd: Vec<Finding> = Vec::new();
+            for i in lo..hi {
+                let fs = (100 + i * stride) as f32;
+                for f in [fs / 16777216.0 * 3.5, 0.1, 1.0, fs * 0.123_456, fs * 0.999_99] {
+                    for start in [0.0f32, 0.75] {
+                        let mut l = Lfo::new(fs);
+                        l.set_phase(start);
+                        l.set_frequency(f);
+                        let c0 = match phase_of(&l) {
+                            Ok(c) => c,
+                            Err(_) => continue,
+                        };
+                        l.tick();
+                        if let Ok(c1) = phase_of(&l) {
+                            c11_tick(fs, f, c0, c1, &mut fnd);
+                            lc.count("integer_rate_ticks", 1);
+                        }
+                        for (p, c, d) in fnd.drain(..) {
+                            lc.violation(viol(p, c, d, fs, vec![format!("phase:{:?}", start), format!("freq:{:?}", f), "tick".into()]));
+                        }
+                    }
+                }
+            }
+        });
+        rep.evaluations += n * 10;
+        rep.transitions += n * 10;
+    }
+    // a long run: more ticks than a 16-bit (quick) / 32-bit (thorough) counter can hold, the phase compared with the
+    // exact multiple of the increment every 2^16 ticks
+    {
+        let total: u64 = if ctx.tier.is_thorough() { (1u64 << 32) + 70_000 } else { (1u64 << 25) + 70_000 };
+        let mut l = Lfo::new(FS0);
+        let k: u32 = 1_234_567;
+        l.set_frequency(inc_freq(k));
+        let mut expect: u32 = 0;
+        let mut bad = false;
+        for t in 1..=total {
+            l.tick();
+            expect = expect.wrapping_add(k) & (M24 - 1);
+            if t % 65536 == 0 || t == total || (t > 65530 && t < 65545) {
+                if phase_of(&l) != Ok(expect) {
+                    rep.violation(viol("C11", "drift-in-a-long-run", format!("after {} ticks at increment {} the phase counter is {:?}, expected {}", t, k, phase_of(&l), expect), FS0, vec![format!("freq:{:?}", inc_freq(k)), format!("tick*{}", t)]));
+                    bad = true;
+                    break;
+                }
+            }
+        }
+        let _ = bad;
+        rep.count("long_run_ticks", total);
+        rep.evaluations += total;
+        rep.transitions += total;
+    }
     rep.mark("frequency grid");
     // (c)
     for (fs, d) in [(1000.0f32, if ctx.tier.is_thorough() { 9 } else { 6 }), (192000.0, if ctx.tier.is_thorough() { 8 } else { 5 })] {
@@ -764,6 +821,8 @@ pub fn c11(ctx: &Ctx) -> Report {
     rep.require_nonzero("grid_ticks_nonzero_advance");
     rep.require_nonzero("freq_changes");
     rep.require_nonzero("small_frequency_changes_crossing_a_counter_step");
+    rep.require_nonzero("integer_rate_ticks");
+    rep.require_nonzero("long_run_ticks");
     rep.sample(json!({"set_phase_bits": "0x3e800000", "p": 0.25, "expected_counter": 4194304}));
     rep.sample(json!({"set_phase_bits": "0xc0f00000", "p": -7.5, "compared_with": "set_phase(-0.5)"}));
     rep.assumptions.push("phase counter read back from the up-saw output".into());
